@@ -689,4 +689,48 @@ example : assocElem (storeOf [((5, 0, 0), 4)]) [.ix 0 (.lit 0), .sec 2 (some (.l
     = some [0, 4, 4] := by decide
 example : unitSteps [.ix 0 (.lit 0), .sec 2 (some (.lit 3)) 1] = true ∧ unitSteps [.sec 2 none 2] = false := by decide
 
+/-- what the array-argument checks of `validate` establish for an actual of any rank -/
+theorem C07_checkIdx_ok (frank : Nat) (as : List AIdx) (h : checkIdx frank as = none) :
+    secCount as = frank ∧ unitSteps as = true ∧ opIndices as = false := by
+  unfold checkIdx at h
+  split at h
+  · cases h
+  · rename_i hop
+    split at h
+    · cases h
+    · rename_i hr
+      split at h
+      · rename_i hu; exact ⟨by omega, hu, by simpa using hop⟩
+      · cases h
+
+/-- **Accepted ⇒ the index map exists and is right** (any rank, any position of the sections): if
+`validate`'s checks pass for the actual `a(as)` against a formal with declared lower bounds `los`, every
+element reference `x(ks)` of matching rank is mapped, and to the element Fortran associates with it -/
+theorem C07_validate_index_map (as : List AIdx) (los : List Int) (ks : List Expr)
+    (h : checkIdx los.length as = none) (hk : ks.length = los.length) (σ : Store) :
+    ∃ out, updateIdx as los ks = some out ∧ out.length = as.length ∧
+      assocElem σ as los (ks.map (eval · σ)) = some (out.map (eval · σ)) := by
+  obtain ⟨hc, hu, _⟩ := C07_checkIdx_ok _ _ h
+  have hd := (C07_index_map_defined as los ks).mpr ⟨hc, by omega⟩
+  cases hout : updateIdx as los ks with
+  | none => simp [hout] at hd
+  | some out => exact ⟨out, rfl, C07_index_map_length as los ks out hout, C07_index_map_sound σ as los ks out hout hu⟩
+
+/-- on the four fixed shapes the per-argument check of `Model/Inline.lean` is the general one -/
+theorem C07_checkArg_is_checkIdx (p : Param) (a : Actual) (d1 d2 : Int) (hp : p.rank ≠ 0)
+    (ha : (∃ x st u, a = .sec1 x st u) ∨ (∃ x s1 s2 u, a = .sec2 x s1 s2 u) ∨ (∃ x st j u, a = .col x st j u) ∨
+      (∃ x i st u, a = .row x i st u)) :
+    checkArg p a = checkIdx p.rank (aidxOf d1 d2 a) := by
+  rcases ha with ⟨x, st, u, rfl⟩ | ⟨x, s1, s2, u, rfl⟩ | ⟨x, st, j, u, rfl⟩ | ⟨x, i, st, u, rfl⟩ <;>
+    cases u <;>
+    simp [checkArg, checkIdx, hp, aidxOf, opIndexed, opIndices, actualRank, secCount, unitStride, unitSteps]
+
+example : checkIdx 1 [.ix 0 (.lit 0), .sec 2 (some (.lit 3)) 1, .ix 1 (.var 5)] = none := by decide
+example : checkIdx 1 [.ix 0 (.bin .sub (.var 3) (.lit 1)), .sec 2 none 1] = some .unknownType := by decide
+example : checkIdx 2 [.ix 0 (.lit 0), .sec 2 none 1] = some .rank := by decide
+example : checkIdx 2 [.sec 0 none 1, .ix 0 (.lit 0), .sec 2 none 2] = some .stride := by decide
+/-- non-vacuity of `C07_validate_index_map` on a rank-3 actual with two sections -/
+example : checkIdx [1, 0].length [.sec 0 none 1, .ix 2 (.lit 2), .sec 1 (some (.lit 2)) 1] = none := by decide
+
+
 end C07
